@@ -92,11 +92,21 @@ Definition gspec_match (lv : val) (arr : list val) (mt : Z) : option val :=
   if mt =? 0 then Some (pos_val (gfirst_pos (xkey_of lv) arr 0))
   else if 0 <? mt then Some (pos_val (glast_le_pos (xkey_of lv) arr 0 None))
   else None.
+Definition strictly_sorted (t : list val) (descending : bool) : bool :=
+  (fix go (l : list val) : bool :=
+     match l with
+     | a :: ((b :: _) as t') =>
+         (if descending then xkey_le (row_key b) (row_key a) else xkey_le (row_key a) (row_key b)) && negb (xkey_eq (row_key a) (row_key b)) && go t'
+     | _ => true
+     end) t.
 (* XMATCH exact: first match forward, LAST match (position in the original array) when searching from the end *)
 Definition gspec_xmatch (lv : val) (arr : list val) (mm sm : Z) : option val :=
   if negb (mm =? 0) then None
   else if sm =? 1 then Some (pos_val (gfirst_pos (xkey_of lv) arr 0))
   else if sm =? -1 then Some (pos_val (glast_pos (xkey_of lv) arr 0 None))
+  (* binary modes: defined on strictly sorted keys (ascending for 2, descending for -2): the position of the exact match *)
+  else if (sm =? 2) && strictly_sorted arr false then Some (pos_val (gfirst_pos (xkey_of lv) arr 0))
+  else if (sm =? -2) && strictly_sorted arr true then Some (pos_val (gfirst_pos (xkey_of lv) arr 0))
   else None.
 
 Definition keys_ascending (t : list val) : bool :=
